@@ -169,12 +169,21 @@ DeltaCases ==
 
 \* reuse placement (C18): an instance of a template drawn at the origin is placed with its
 \* top-left at the reuse element's x/y (a shape) or translated there (a group)
+\* `via`: the position is written as numbers ("abs"), as a location of a base element
+\* whose top-left is p ("loc"), or as a direction from that base element ("dir")
+ReuseBase(p) == B(p[1], p[2], p[1] + 4, p[2] + 4)
 ReusePosCases ==
     {[fam |-> "rel", form |-> "reusepos", tkind |-> tk, w |-> sz[1], h |-> sz[2], x |-> p[1], y |-> p[2], where |-> wh,
-      anchor |-> an, exp |-> PlaceAt(p, an, sz[1], sz[2])] :
-        tk \in {"rect", "circle", "ellipse", "g", "symbol"}, sz \in {<<8, 8>>},
+      anchor |-> an, via |-> via, exp |-> PlaceAt(p, an, sz[1], sz[2])] :
+        tk \in {"rect", "circle", "ellipse", "g", "symbol"}, sz \in {<<8, 8>>, <<8, 12>>},
         p \in {<<0, 0>>, <<20, -12>>, <<-16, 4>>}, wh \in {"specs", "defs", "inline-before", "inline-after"},
-        an \in {"tl", "c", "br", "t"}}
+        an \in {"tl", "c", "br", "t"}, via \in {"abs", "loc"}}
+    \cup
+    {[fam |-> "rel", form |-> "reusepos", tkind |-> tk, w |-> sz[1], h |-> sz[2], x |-> p[1], y |-> p[2], where |-> wh,
+      anchor |-> d, via |-> "dir", exp |-> PlaceDir(ReuseBase(p), d, 4, sz[1], sz[2])] :
+        tk \in {"rect", "circle", "ellipse", "g", "symbol"}, sz \in {<<8, 8>>, <<8, 12>>},
+        p \in {<<0, 0>>, <<20, -12>>}, wh \in {"specs", "defs", "inline-before", "inline-after"},
+        d \in {"h", "H", "v", "V"}}
 
 \* chains: b placed against a, c against b (translation composes)
 ChainCases ==
@@ -455,6 +464,7 @@ Cases == CASE Family = "solve" -> SolveCases
            [] Family = "conn" -> ConnCases
            [] Family = "extent" -> ExtentCases
            [] Family = "rel" -> RelCases
+           [] Family = "reusepos" -> ReusePosCases
            [] OTHER -> {}
 
 Init == c \in Cases
